@@ -15,6 +15,7 @@ import (
 	metav1 "k8s.io/apimachinery/pkg/apis/meta/v1"
 	"k8s.io/apimachinery/pkg/runtime"
 	kubeinformers "k8s.io/client-go/informers"
+	"k8s.io/client-go/tools/cache"
 	"k8s.io/client-go/tools/record"
 	fakeclock "k8s.io/utils/clock/testing"
 
@@ -153,6 +154,10 @@ type World struct {
 	Mid          *MidPlan // armed mid-reconcile delivery (see MidPlan)
 	ListOrder    []Res    // order of the initial LISTs of the next StartProcess (nil = AllRes)
 	MidDelivered int
+	// OnMid, when set, is told of every watch event that reaches the controller's
+	// caches in the middle of a reconcile, before it is applied: the resource, the
+	// key and what the cache held for it (nil = nothing).
+	OnMid func(r Res, key string, old runtime.Object)
 	// captured at every StartProcess
 	StartedAt        time.Time
 	PersistedAtStart map[string]time.Time // JobConfig key -> status.lastScheduled in the store at start
@@ -452,6 +457,10 @@ func (w *World) midHook() {
 	actor := w.API.Actor
 	w.API.Actor = "informer"
 	for _, ev := range evs[:n] {
+		if w.OnMid != nil {
+			key, _ := cache.MetaNamespaceKeyFunc(ev.Obj)
+			w.OnMid(p.Res, key, w.Ctrl.Informer(p.Res).Cached(key))
+		}
 		w.Ctrl.Informer(p.Res).Deliver(ev.Type, ev.Obj)
 	}
 	w.API.Actor = actor
